@@ -27,11 +27,11 @@ def mask(cells):
 
 def graph(c, M):
     cfg = os.path.join(c.work, "MC_Segments.cfg")
-    with open("/verif/spec/mc/MC_Segments.cfg") as f:
+    with open(common.VERIF + "/spec/mc/MC_Segments.cfg") as f:
         text = f.read().replace("CONSTANT M = 6", "CONSTANT M = %d" % M)
     with open(cfg, "w") as f:
         f.write(text)
-    r = tlc.run("/verif/spec/mc/MC_Segments.tla", cfg, os.path.join(c.work, "tlc"), workers=1, timeout=1200)
+    r = tlc.run(common.VERIF + "/spec/mc/MC_Segments.tla", cfg, os.path.join(c.work, "tlc"), workers=1, timeout=1200)
     if r.violated:
         raise common.ToolError("Segments.tla violates its own law %s - the specification is wrong" % r.violated)
     states, edges = {}, {}
